@@ -34,6 +34,19 @@ CRAM = {
     "fail": "d\n  $ echo a\n  b\n",
     "failcode": "d\n  $ echo a; (exit 3)\n  a\n",
 }
+def confined(orig, want, got):
+    """`got` differs from `orig` only where `want` (the expected update) differs from it: the lines outside the failing
+    expectation are kept; WHAT is written there is judged by running `scrut test` on the file (the property does not fix
+    the spelling of a regenerated expectation)"""
+    import difflib
+    o, w, g = orig.split("\n"), want.split("\n"), got.split("\n")
+    region = [(i1, i2) for tag, i1, i2, _j1, _j2 in difflib.SequenceMatcher(None, o, w, autojunk=False).get_opcodes() if tag != "equal"]
+    for tag, i1, i2, _j1, _j2 in difflib.SequenceMatcher(None, o, g, autojunk=False).get_opcodes():
+        if tag != "equal" and not any(a <= i1 and i2 <= b for a, b in region):
+            return False
+    return True
+
+
 def expected_update(fmt, cls, text):
     """the exact text an update of this document must produce (None: not predictable here)"""
     if fmt == "md" and cls in ("fail", "append_fail"):
@@ -106,9 +119,9 @@ def run_scenario(sc):
                   "conv": "absent" if c is None else "changed"}
             fs.append(st)
             for role, path in (("orig", x["orig"]), ("new", x["new"]), ("conv", x["conv"])):
-                if st[role] == "changed" and role != "conv" and x["want"] is not None and open(path, errors="replace").read() != x["want"]:
+                if st[role] == "changed" and role != "conv" and x["want"] is not None and not confined(x["text"], x["want"], open(path, errors="replace").read()):
                     written_pass = False
-                    detail = f"the written {role} file is not the document with exactly its failing expectation replaced: " + repr(open(path, errors="replace").read()[:200])
+                    detail = f"the written {role} file differs from the document outside its failing expectation: " + repr(open(path, errors="replace").read()[:200])
                 if st[role] == "changed":
                     # a `.new` file has no recognised extension: test a copy under the document's extension
                     tpath = path
